@@ -14,3 +14,11 @@ META['C10'] = dict(
                'against the real allocator-backed implementation up to the BFS fixpoint, and every size 0..4096 is created, checked for alignment, zero fill, size, writability and '
                'exactly-once destruction. The monitor checks destructor/free timing and count on every step.',
     level_note='Bounded: 3 blocks, 3 user references; allocator observed via memhook; sanitizer (ASan/UBSan) build of Lib/mem is the memory-safety oracle.')
+
+META['C12'] = dict(
+    engine='seqx-inproc', design_ref='6/C12',
+    technique='explicit-state BFS to fixpoint over operation histories on the real queue/stack/list code with an array reference monitor and probe suffixes',
+    level_text='All histories over the complete API of queue, stack and list (with/without destructor, list with/without comparator) with at most 4 (thorough: 5) elements '
+               'and one live iterator are enumerated to the fixpoint of the (monitor state, last-k-ops) key; after every transition the whole container is compared with the '
+               'array monitor (order, length, destructor log) and four probe suffixes check that the container keeps working (drain, clear+reuse, remove-all pass, free + allocator audit).',
+    level_note='Bounded element count; iterator semantics = cursor position in the array (as the repository tests use it); external mutation during iteration not generated.')
